@@ -71,7 +71,7 @@ class NormActivation(torch.nn.Module):
         self.normalize = normalize
         self.bias = bias
         if self.bias:
-            self.biases = torch.nn.Parameter(torch.zeros(irreps_in.num_irreps))
+            self.biases = torch.nn.Parameter(torch.zeros(self.irreps_in.num_irreps))
 
         self.scalar_multiplier = ElementwiseTensorProduct(
             irreps_in1=self.norm.irreps_out,
